@@ -333,6 +333,8 @@ def random_spec(rng, *, max_side=6, kmax=40, for_solver=False, frames=1, min_rid
     for _ in range(200):
         nx = rng.randint(2, max_side)
         ny = rng.randint(2, max_side)
+        if not for_solver and rng.random() < 0.12:
+            ny = 1                      # a single row of cells: every cell is on the border
         if for_solver and nx * ny < 4:
             continue
         spec = {"kind": "voronoi", "nx": nx, "ny": ny, "sseed": rng.randrange(10 ** 9),
@@ -400,6 +402,12 @@ def random_spec(rng, *, max_side=6, kmax=40, for_solver=False, frames=1, min_rid
         spec["shift"] = rng.choice([[0.0, 0.0], [round(span, 1), round(span, 1)],
                                     [round(-span, 1), round(-span * 0.7, 1)],
                                     [round(span * 2, 1), round(rng.uniform(-span, span), 1)]])
+        if rng.random() < 0.12:
+            # boundary value of the WKT reader, which stores y as 1024 - y: a tissue that straddles that line
+            spec["shift"] = [round(span, 1), rng.choice([0.0, 1024.0])]
+        if spec.get("lattice") == "quad" and spec.get("jitter") == 0.0 and rng.random() < 0.6:
+            spec["rot"] = rng.choice([0.0, 0.0, round(math.pi / 2, 4)])   # axis-parallel: exactly mirror-symmetric coordinates
+            spec["scale"] = rng.choice([10.0, 24.0, 40.0])
         spec["orient"] = rng.choice(["ccw", "cw", "mixed"])
         spec["ids"] = rng.choice(["contig0", "contig1", "gaps", "shuffle", "gaps", "huge"])
         if frames > 1:
